@@ -871,7 +871,7 @@ class Folder:
                 if isinstance(keyf, (_Lambda, _LocalFn)):
                     pyk["key"] = lambda x, _k=keyf: _k.call(self, [x])
                 else:
-                    raise Unfoldable(unparse(e))
+                    pyk["key"] = lambda x, _k=keyf: call_value(self, _k, [x])
             if "reverse" in kw:
                 pyk["reverse"] = bool(kw.pop("reverse"))
             if "default" in kw and name != "sorted":
